@@ -1,7 +1,7 @@
 (* C18 proofs.
    Part 1: an Absent value is never written.  Proved against the shared emitter model Syn.Emitter for ALL documents:
-           emit d = emit (drop_absent d) unless META is non-empty with every field Absent (there the faithful model --
-           like emitter.py -- appends the empty string emit_meta returns as a blank line); null, "" and [] are three texts.
+           emit d = emit (drop_absent d), unconditionally (since /repo 1d4faf6 a META whose fields are all Absent leaves
+           no blank line; regression Example all_absent_meta_regression); null, "" and [] are three texts.
    Part 2: what a changes request does to a document -- for ALL documents and ALL requests. *)
 From OV Require Import Base.Strs Gen.EmitterGen Gen.ChangesGen Syn.Escape Syn.Quote Syn.Ast Syn.Emitter Lex.Lexer Syn.Parser Chg.Changes.
 Require Coq.Strings.String.
@@ -345,27 +345,20 @@ Definition meta_part (m : list (str * metaval)) : list str :=
   match m with
   | [] => []
   | _ :: _ => match emit_meta_lines m with
-              | [] => [[]]
+              | [] => []                    (* emit_meta returned "": nothing is appended (/repo 1d4faf6) *)
               | ls => s_meta_hdr :: ls
               end
   end.
 
-Lemma meta_part_nonblank m : emit_meta_lines m <> [] -> meta_part m = s_meta_hdr :: emit_meta_lines m.
-Proof.
-  intro H. destruct m as [|e r]; [exfalso; apply H; reflexivity|].
-  unfold meta_part. destruct (emit_meta_lines (e :: r)); [exfalso; apply H; reflexivity|reflexivity].
-Qed.
+Lemma meta_part_eq m : meta_part m = match emit_meta_lines m with [] => [] | ls => s_meta_hdr :: ls end.
+Proof. destruct m; reflexivity. Qed.
 
-Lemma meta_part_drop m : (match m with [] => false | _ => all_mv_absent m end) = false ->
-  meta_part (drop_meta m) = meta_part m.
-Proof.
-  intro H. destruct m as [|e r]; [reflexivity|].
-  assert (Hne : emit_meta_lines (e :: r) <> []).
-  { intro E. apply meta_lines_nil_iff in E. congruence. }
-  rewrite (meta_part_nonblank (e :: r) Hne). rewrite meta_part_nonblank.
-  - rewrite emit_meta_lines_drop. reflexivity.
-  - rewrite emit_meta_lines_drop. exact Hne.
-Qed.
+Lemma meta_part_drop m : meta_part (drop_meta m) = meta_part m.
+Proof. rewrite !meta_part_eq, emit_meta_lines_drop. reflexivity. Qed.
+
+(* a META whose fields are all Absent prints nothing at all *)
+Lemma meta_part_all_absent m : all_mv_absent m = true -> meta_part m = [].
+Proof. intro H. rewrite meta_part_eq, (proj2 (meta_lines_nil_iff m) H). reflexivity. Qed.
 
 (* ---- documents ----------------------------------------------------------------------------------------------------------- *)
 Definition head_lines (sp : N -> bool) (d : doc) : list str :=
@@ -387,31 +380,23 @@ Proof.
   rewrite <- !app_assoc. destruct (dmeta d); reflexivity.
 Qed.
 
-Theorem absent_never_emitted sp d : meta_all_absent d = false -> emit sp (drop_absent d) = emit sp d.
+(* unconditional since /repo 1d4faf6 (before it, a non-empty all-Absent META left an empty line) *)
+Theorem absent_never_emitted sp d : emit sp (drop_absent d) = emit sp d.
 Proof.
-  intro H. unfold emit. do 2 f_equal. rewrite !emit_compositional.
+  unfold emit. do 2 f_equal. rewrite !emit_compositional.
   unfold head_lines, body_lines, foot_lines, sep_lines, drop_absent. cbn [dfront dgrammar dname dmeta dsep dsections dtrailing].
-  rewrite top_lines_drop, meta_part_drop; [reflexivity|].
-  unfold meta_all_absent, all_mv_absent in *. destruct (dmeta d); exact H.
+  rewrite top_lines_drop, meta_part_drop. reflexivity.
 Qed.
 
-(* where the hypothesis fails the only difference is one blank line in place of the META block *)
-Theorem absent_blank_line_only sp d : meta_all_absent d = true ->
-  emit_lines sp d = head_lines sp d ++ [[]] ++ sep_lines d ++ body_lines d ++ foot_lines d /\
-  emit_lines sp (drop_absent d) = head_lines sp d ++ sep_lines d ++ body_lines d ++ foot_lines d.
-Proof.
-  intro H. rewrite !emit_compositional. unfold meta_all_absent in H.
-  unfold head_lines, body_lines, foot_lines, sep_lines, drop_absent. cbn [dfront dgrammar dname dmeta dsep dsections dtrailing].
-  rewrite top_lines_drop. destruct (dmeta d) as [|e r] eqn:E; [discriminate H|].
-  fold (all_mv_absent (e :: r)) in H. rewrite (drop_meta_all_absent _ H).
-  pose proof (proj2 (meta_lines_nil_iff (e :: r)) H) as Hl.
-  unfold meta_part at 1. rewrite Hl. split; reflexivity.
-Qed.
-
-Definition absent_never_emitted_full : Prop := forall sp d, emit sp (drop_absent d) = emit sp d.
-Definition blank_meta_doc : doc := mkDoc (lit "D") None None false [(lit "X", MV VAbsent)] [NAssign (lit "K") (VNum false (lit "1")) [] None] [].
-Theorem absent_never_emitted_refuted : exists sp d, emit sp (drop_absent d) <> emit sp d.
-Proof. exists (fun _ => false), blank_meta_doc. vm_compute. discriminate. Qed.
+(* regression of finding C18-meta-all-absent-blank-line: the all-Absent META document prints exactly the text of the
+   document without META *)
+Definition blank_meta_doc : doc := mkDoc (lit "D") None None false [(lit "X", MV VAbsent); (lit "Y", MV VAbsent)] [NAssign (lit "K") (VNum false (lit "1")) [lit "c"; []] None] [].
+Definition no_meta_doc : doc := mkDoc (lit "D") None None false [] [NAssign (lit "K") (VNum false (lit "1")) [lit "c"; []] None] [].
+Example all_absent_meta_regression :
+  meta_all_absent blank_meta_doc = true /\
+  emit (fun _ => false) blank_meta_doc = emit (fun _ => false) no_meta_doc /\
+  emit (fun _ => false) blank_meta_doc = lit "===D===" ++ [c_nl] ++ lit "// c" ++ [c_nl] ++ lit "//" ++ [c_nl] ++ lit "K::1" ++ [c_nl] ++ lit "===END===" ++ [c_nl].
+Proof. repeat split; vm_compute; reflexivity. Qed.
 
 (* drop_absent really removes every Absent *)
 Lemma forallb_flat_map {A B} (f : B -> bool) (g : A -> list B) l :
@@ -1218,7 +1203,7 @@ Example ex_cli :
           [NAssign (lit "A") (VNum true (lit "2.5")) [] None; NAssign (lit "C") (VStr (lit "two words")) [] None] []).
 Proof. vm_compute. reflexivity. Qed.
 
-(* Absent at every kind of position; the hypothesis of absent_never_emitted holds and drop_absent removes something *)
+(* Absent at every kind of position; drop_absent removes something and the text is the same *)
 Definition absent_doc : doc :=
   mkDoc (lit "D") None None false
         [(lit "X", MV VAbsent); (lit "Y", MV (VList [VAbsent; VNum false (lit "1")])); (lit "N", MD [(lit "A", VAbsent); (lit "B", VNull)])]
